@@ -19,9 +19,9 @@ TracePkt == /\ IsEvent("Pkt")
                   /\ st' = Put(key, res.st)
                   /\ panicked' = (panicked \/ res.panic) /\ UNCHANGED period
 TraceEnd == /\ IsEvent("End")
-            /\ IF (Rec[l].rc = 134) = panicked THEN TRUE ELSE PrintT("REJECT " \o ToJson([l |-> l, tag |-> "end", expected |-> panicked, observed |-> Rec[l].rc])) /\ FALSE
+            /\ IF (Rec[l].rc = 134) = panicked THEN TRUE ELSE PrintT("REJECT " \o ToJson([l |-> l, tag |-> "end", expected |-> panicked, observed |-> Rec[l].rc]))
             /\ IF panicked \/ SameBag(exp, obs) THEN TRUE
-               ELSE PrintT("REJECT " \o ToJson([l |-> l, tag |-> "errors", expected |-> SelectSeq(exp, LAMBDA e : Count(e, exp) # Count(e, obs)), observed |-> SelectSeq(obs, LAMBDA e : Count(e, exp) # Count(e, obs))])) /\ FALSE
+               ELSE PrintT("REJECT " \o ToJson([l |-> l, tag |-> "errors", expected |-> SelectSeq(exp, LAMBDA e : Count(e, exp) # Count(e, obs)), observed |-> SelectSeq(obs, LAMBDA e : Count(e, exp) # Count(e, obs))]))
             /\ UNCHANGED << st, panicked, exp, obs, period >>
 Next == TraceCfg \/ TracePkt \/ TraceEnd
 Spec == Init /\ [][Next]_tvars
